@@ -1732,6 +1732,30 @@ def choose_cells(rng, spec, tier):
     return chosen
 
 
+def table_tie(chk, specs):
+    """The class tables the driver executes (`Gen/Tables.lean`) are derived from the source by harness/effects.py.
+    Recorded as evidence: what was derived per class (slots, registers, assumed configuration, refusals); checked: the
+    method numbering of the generated tables is the numbering of the specs below, and the analysis still finds the six
+    stale-state defects F26 on the parent commit of each repair and nothing on the repaired text."""
+    import effects
+    tabs = effects.tables_summary()
+    chk.extra['generated_tables'] = tabs
+    chk.extra['generated_tables_registers'] = {c: t.get('registers') for c, t in tabs.items() if t.get('registers')}
+    chk.extra['generated_tables_refused'] = {c: t['unsupported'] for c, t in tabs.items() if 'unsupported' in t}
+    for d, cls, path, methods, names in effects.CLASSES:
+        for nm in names:
+            spec = specs.get(nm)
+            mine = [m.name.split('(')[0] for m in spec.methods] if spec is not None else None
+            chk.k(mine == [m for m, _ in methods] and spec.lean_name == nm,
+                  'method numbering of the generated table %s = numbering of the harness' % nm,
+                  {'table': [m for m, _ in methods], 'harness': mine})
+    st = effects.selftest()
+    chk.extra['effects_selftest'] = st if st else 'git history of the repository not readable'
+    for r in st:
+        chk.k(r['ok'], 'effect analysis: register on the parent of a stale-state repair, none on the repaired text '
+              '(%s %s)' % (r['class'], r['rev']), r)
+
+
 def run(chk, drv, rng, tier):
     specs = mk_specs()
     quick = tier == 'quick'
@@ -1743,6 +1767,7 @@ def run(chk, drv, rng, tier):
     chk.h_checked += 1
     if not (np.array_equal(a1[0], a2[0]) and np.array_equal(a1[1], a2[1])):
         chk.discard('np.random.seed does not reproduce the stream')
+    table_tie(chk, specs)
     function_sweep(chk, rng)
     constructor_sweep(chk, rng)
     cells_done = []
